@@ -117,7 +117,7 @@ func exploreCase(c *mc.Ctx, w *mc.W, cas c20Case, maxExecs int) {
 // RunC20 enumerates the configurations (every one explored to completion of the preemption bound).
 func RunC20(c *mc.Ctx) {
 	bound2 := mc.Pick(c, 2, 3)
-	c.Rule(fmt.Sprintf("stateless model checking on the instrumented real bloom/filter.go and gcs/gcs.go: every unordered pair of thread programs of 1-2 operations over the 12 documented-safe filter operations (2 geometries; all schedules with <= %d preemptions), every triple of 1-2 operation programs over a write-heavy 6-op sub-alphabet (3 threads, <= %d preemptions), GCS: pairs (triples thorough) of query programs on one shared filter; oracles on every complete execution: linearizability against the sequential BIP37 model incl. final filter bytes, co-enabled conflicting accesses (data race), panic, deadlock, termination; non-trivial = configurations with more than one distinct observable outcome", bound2, mc.Pick(c, 2, 2)))
+	c.Rule(fmt.Sprintf("stateless model checking on the instrumented real bloom/filter.go and gcs/gcs.go: every unordered pair of thread programs of 1-2 operations over the 12 documented-safe filter operations (2 geometries; all schedules with <= %d preemptions), every triple of 1-operation programs and of one 2-operation program with two 1-operation programs over a write-heavy 6-op sub-alphabet (3 threads, <= %d preemptions), GCS: pairs (triples thorough) of query programs on one shared filter; oracles on every complete execution: linearizability against the sequential BIP37 model incl. final filter bytes, co-enabled conflicting accesses (data race), panic, deadlock, termination; non-trivial = configurations with more than one distinct observable outcome", bound2, mc.Pick(c, 2, 2)))
 	c.Assume("sequential consistency (Go's DRF-SC guarantee; race freedom is one of the checked oracles); accesses through local aliases invisible to the syntactic instrumenter are left to the auxiliary free-running -race pass")
 	c.Assume("statement-granular interleaving: a statement's shared accesses are announced together before it executes")
 	c.Note("preemption_bound_pairs", bound2)
@@ -140,17 +140,32 @@ func RunC20(c *mc.Ctx) {
 	})
 	// ---- bloom: triples over the write-heavy sub-alphabet
 	sub := []string{"Add:x", "Add:y", "Matches:x", "MatchTx", "Reload", "Unload"}
-	sp := programs(sub, mc.Pick(c, 1, 2))
-	if c.Quick() {
-		// quick: 3 threads x 1 op, plus 2-op first thread
-		sp = append(sp, []string{"Add:x", "Matches:x"}, []string{"Unload", "Add:x"}, []string{"Reload", "Matches:y"}, []string{"MatchTx", "Matches:x"})
-	}
+	sp := programs(sub, 1)
 	type triple struct{ a, b, c int }
 	var triples []triple
 	for i := range sp {
 		for j := i; j < len(sp); j++ {
 			for k := j; k < len(sp); k++ {
 				triples = append(triples, triple{i, j, k})
+			}
+		}
+	}
+	// one thread with a 2-op program next to two 1-op threads: 4 chosen programs on quick, all 36 on thorough
+	two := [][]string{{"Add:x", "Matches:x"}, {"Unload", "Add:x"}, {"Reload", "Matches:y"}, {"MatchTx", "Matches:x"}}
+	if c.Thorough() {
+		two = nil
+		for _, a := range sub {
+			for _, b := range sub {
+				two = append(two, []string{a, b})
+			}
+		}
+	}
+	n1 := len(sp)
+	for _, t := range two {
+		sp = append(sp, t)
+		for j := 0; j < n1; j++ {
+			for k := j; k < n1; k++ {
+				triples = append(triples, triple{len(sp) - 1, j, k})
 			}
 		}
 	}
